@@ -385,3 +385,330 @@ Proof.
   unfold py_sort. destruct rv; [|apply isort_perm].
   rewrite <- Permutation_rev, isort_perm. symmetry. apply Permutation_rev.
 Qed.
+
+(* order of keys: text_leb is reflexive and total *)
+Lemma text_leb_refl a : text_leb a a = true.
+Proof.
+  induction a as [|x a IH]; [reflexivity|]. cbn [text_leb]. rewrite Z.ltb_irrefl. exact IH.
+Qed.
+
+Lemma text_leb_total : forall a b, text_leb a b = false -> text_leb b a = true.
+Proof.
+  induction a as [|x a IH]; intros [|y b] H; cbn [text_leb] in *; try discriminate; try reflexivity.
+  destruct (x <? y)%Z eqn:E1; [discriminate|].
+  destruct (y <? x)%Z eqn:E2; [reflexivity|]. now apply IH.
+Qed.
+
+(* "x may stand before y": keys in order (vacuous when a key callback raises - the sort is then abandoned) *)
+Definition kle (k : keyt) (x y : rt) : Prop :=
+  match key_of k (rid x), key_of k (rid y) with
+  | Some a, Some b => text_leb a b = true
+  | _, _ => True
+  end.
+
+(* has key a *)
+Definition hk (k : keyt) (a : text) (t : rt) : bool :=
+  match key_of k (rid t) with Some b => text_eqb a b | None => false end.
+
+Lemma HdRel_ins k x y l : HdRel (kle k) y l -> kle k y x -> HdRel (kle k) y (ins_sorted k x l).
+Proof.
+  intros H R. destruct l as [|z l]; [constructor; exact R|]. cbn [ins_sorted].
+  destruct (key_of k (rid x)) as [kx|] eqn:Ex; [|constructor; exact R].
+  destruct (key_of k (rid z)) as [kz|] eqn:Ez; [|constructor; exact R].
+  destruct (text_leb kx kz); constructor; [exact R|]. now inversion H.
+Qed.
+
+Lemma ins_sorted_sorted k x : forall l, Sorted (kle k) l -> Sorted (kle k) (ins_sorted k x l).
+Proof.
+  induction l as [|y l IH]; intros S; [repeat constructor|]. cbn [ins_sorted].
+  destruct (key_of k (rid x)) as [kx|] eqn:Ex.
+  2:{ constructor; [exact S|]. constructor. unfold kle. now rewrite Ex. }
+  destruct (key_of k (rid y)) as [ky|] eqn:Ey.
+  2:{ constructor; [exact S|]. constructor. unfold kle. now rewrite Ex, Ey. }
+  destruct (text_leb kx ky) eqn:E.
+  - constructor; [exact S|]. constructor. unfold kle. now rewrite Ex, Ey.
+  - inversion S as [|? ? S' Hd]; subst. constructor; [now apply IH|].
+    apply HdRel_ins; [exact Hd|]. unfold kle. rewrite Ex, Ey. now apply text_leb_total.
+Qed.
+
+Theorem isort_sorted k l : Sorted (kle k) (isort k l).
+Proof.
+  induction l as [|x l IH]; [constructor|]. cbn [isort fold_right]. fold (isort k l). now apply ins_sorted_sorted.
+Qed.
+
+Lemma filter_ins_sorted k a x : forall l,
+  filter (hk k a) (ins_sorted k x l) = (if hk k a x then [x] else []) ++ filter (hk k a) l.
+Proof.
+  induction l as [|y l IH]; [cbn; destruct (hk k a x); reflexivity|]. cbn [ins_sorted].
+  destruct (key_of k (rid x)) as [kx|] eqn:Ex; [|cbn [filter]; destruct (hk k a x); reflexivity].
+  destruct (key_of k (rid y)) as [ky|] eqn:Ey; [|cbn [filter]; destruct (hk k a x); reflexivity].
+  destruct (text_leb kx ky) eqn:E; [cbn [filter]; destruct (hk k a x); reflexivity|].
+  cbn [filter]. rewrite IH.
+  destruct (hk k a x) eqn:Hx, (hk k a y) eqn:Hy; try reflexivity.
+  exfalso. unfold hk in Hx, Hy. rewrite Ex in Hx. rewrite Ey in Hy.
+  apply text_eqb_eq in Hx, Hy. subst kx ky. rewrite text_leb_refl in E. discriminate.
+Qed.
+
+(* stability: the nodes with one key keep their relative order *)
+Theorem isort_stable k a l : filter (hk k a) (isort k l) = filter (hk k a) l.
+Proof.
+  induction l as [|x l IH]; [reflexivity|]. cbn [isort fold_right]. fold (isort k l).
+  rewrite filter_ins_sorted, IH. cbn [filter]. destruct (hk k a x); reflexivity.
+Qed.
+
+Lemma filter_rev' {X} (f : X -> bool) l : filter f (rev l) = rev (filter f l).
+Proof.
+  induction l as [|x l IH]; [reflexivity|]. cbn [rev filter]. rewrite filter_app, IH. cbn [filter].
+  destruct (f x); cbn [rev]; [reflexivity|now rewrite app_nil_r].
+Qed.
+
+Theorem py_sort_stable k rv a l : filter (hk k a) (py_sort k rv l) = filter (hk k a) l.
+Proof.
+  unfold py_sort. destruct rv; [|apply isort_stable].
+  rewrite filter_rev', isort_stable, filter_rev', rev_involutive. reflexivity.
+Qed.
+
+Fixpoint lastopt {X} (l : list X) : option X :=
+  match l with [] => None | [x] => Some x | _ :: l' => lastopt l' end.
+
+Lemma Sorted_snoc {X} (Q : X -> X -> Prop) x : forall m,
+  Sorted Q m -> (forall y, lastopt m = Some y -> Q y x) -> Sorted Q (m ++ [x]).
+Proof.
+  induction m as [|z m IH]; intros S H; [repeat constructor|]. cbn [app].
+  inversion S as [|? ? S' Hd]; subst. constructor.
+  - apply IH; [exact S'|]. intros y Hy. apply H. destruct m; [discriminate|exact Hy].
+  - destruct m as [|z' m]; cbn [app]; constructor; [apply H; reflexivity|now inversion Hd].
+Qed.
+
+Lemma last_error_rev_cons {X} (y : X) l : lastopt (rev (y :: l)) = Some y.
+Proof. cbn [rev]. induction (rev l) as [|z m IH]; [reflexivity|]. cbn [app]. destruct (m ++ [y]) eqn:E; [destruct m; discriminate|exact IH]. Qed.
+
+Lemma Sorted_rev {X} (R : X -> X -> Prop) : forall l, Sorted R l -> Sorted (fun a b => R b a) (rev l).
+Proof.
+  induction l as [|x l IH]; intros S; [constructor|]. cbn [rev]. inversion S as [|? ? S' Hd]; subst.
+  apply Sorted_snoc; [now apply IH|]. intros y Hy. destruct l as [|z l]; [discriminate|].
+  rewrite last_error_rev_cons in Hy. injection Hy as <-. now inversion Hd.
+Qed.
+
+(* ascending without reverse, descending with reverse *)
+Theorem py_sort_sorted k l :
+  Sorted (kle k) (py_sort k false l) /\ Sorted (fun x y => kle k y x) (py_sort k true l).
+Proof. unfold py_sort. split; [apply isort_sorted|apply Sorted_rev, isort_sorted]. Qed.
+
+(* -- sort_children(deep=False) on the machine: the child list named by the op is replaced by its sorted
+      permutation; rows outside are unchanged -- *)
+Theorem sort_flat_effect w ti p k rv r w' :
+  op_sort w ti p k rv false = (Ok r, w') ->
+  exists t t' pq ch,
+    get_tree w ti = Some t /\ get_tree w' ti = Some t' /\
+    parent_path p (forest_of t) = Some pq /\ get_ch pq (forest_of t) = Some ch /\
+    get_ch pq (forest_of t') = Some (py_sort k rv ch) /\
+    repl_rows (rows p ch) (rows p (py_sort k rv ch)) (rows 0 (forest_of t)) (rows 0 (forest_of t')) /\
+    (forall tj, tj <> ti -> get_tree w' tj = get_tree w tj).
+Proof.
+  unfold op_sort. intros H.
+  destruct (get_tree w ti) as [t|] eqn:Et; [|discriminate].
+  destruct (parent_path p (forest_of t)) as [pq|] eqn:Ep; [|discriminate].
+  destruct (get_ch pq (forest_of t)) as [ch|] eqn:Ec; [|discriminate].
+  destruct (sort_list k rv false ch) as [ch' failed] eqn:Es.
+  destruct failed; [discriminate|]. injection H as <- <-.
+  assert (E' : ch' = py_sort k rv ch).
+  { unfold sort_list in Es. destruct ch as [|c0 ch0]; [injection Es as <-; destruct rv; reflexivity|].
+    destruct (Nat.eqb (length (c0 :: ch0)) 1 && negb false) eqn:E1.
+    - injection Es as <-. destruct ch0; [|discriminate]. unfold py_sort, isort. destruct rv; reflexivity.
+    - destruct (negb (keys_ok k (c0 :: ch0))); [discriminate|]. now injection Es as <-. }
+  subst ch'.
+  eexists t, _, pq, ch.
+  split; [first [reflexivity|exact Et]|]. split; [exact (get_put_same _ _ t _ Et)|].
+  split; [first [reflexivity|exact Ep]|]. split; [first [reflexivity|exact Ec]|]. split; [|split].
+  - cbn [forest_of set_forest]. now rewrite (get_ch_upd_ch _ _ _ _ Ec).
+  - cbn [forest_of set_forest].
+    destruct (upd_ch_context pq (forest_of t) 0 ch Ec) as (A & B & E1 & E2).
+    rewrite (parent_path_owner p _ pq ch Ep Ec) in E1, E2.
+    exists A, B. split; [exact E1|]. now rewrite E2.
+  - intros tj Hj. rewrite get_put_other by congruence. reflexivity.
+Qed.
+
+(* ------------------------------------------------------------------ *)
+(* Part 5: remove / move / shortcuts / metadata at the level of [step] *)
+
+Lemma get_node_live t n s : get_node n (forest_of t) = Some s -> live t n = true.
+Proof.
+  intros H. destruct (get_node_spec n _ s H) as (Hin & Hr). unfold live. apply existsb_exists.
+  exists n. split; [|apply Nat.eqb_refl]. unfold ids. rewrite <- Hr. now apply in_map.
+Qed.
+
+Lemma remove_one_some t n keep s : get_node n (forest_of t) = Some s -> exists t', remove_one t n keep = Some t'.
+Proof.
+  intros H. destruct (get_node_loc n _ s H) as (q0 & i & l & El & En).
+  unfold remove_one, remove_keep, remove_branch, detach. rewrite El, En.
+  destruct keep; [eexists; reflexivity|]. destruct (unregister_all _ _ _). eexists; reflexivity.
+Qed.
+
+(* remove(keep_children=k) of one node: [remove_keep] / [remove_branch] of exactly that node *)
+Theorem remove_effect w ti n keep r w' :
+  op_remove w ti n keep false = (Ok r, w') ->
+  exists t t', get_tree w ti = Some t /\ get_tree w' ti = Some t' /\ r = [] /\
+               (if keep then remove_keep t n = Some t' else remove_branch t n = Some t') /\
+               next w' = next w /\ (forall tj, tj <> ti -> get_tree w' tj = get_tree w tj).
+Proof.
+  unfold op_remove. intros H.
+  destruct (get_tree w ti) as [t|] eqn:Et; [|discriminate].
+  destruct (did_of n (forest_of t)) as [d|] eqn:Ed; [|discriminate].
+  unfold did_of in Ed. destruct (get_node n (forest_of t)) as [s|] eqn:Es; [|discriminate].
+  destruct (keep && existsb (keep_collides_all t [n]) [n]); [discriminate|].
+  injection H as <- <-. cbn [fold_left]. rewrite (get_node_live t n s Es).
+  destruct (remove_one_some t n keep s Es) as (t' & E'). rewrite E'.
+  exists t, t'. split; [first [reflexivity|exact Et]|]. split; [exact (get_put_same _ _ t _ Et)|].
+  split; [reflexivity|]. split; [destruct keep; exact E'|]. split; [reflexivity|].
+  intros tj Hj. rewrite get_put_other by congruence. reflexivity.
+Qed.
+
+Lemma parent_path_has_ch p f pq : parent_path p f = Some pq -> exists ch, get_ch pq f = Some ch.
+Proof.
+  unfold parent_path. destruct (Nat.eqb p 0).
+  - intros H. injection H as <-. now exists f.
+  - intros H. destruct (node_path_sound p f pq H) as (s & H1 & _).
+    destruct (node_at_loc pq f s 0 H1) as (G & _). now exists (rch s).
+Qed.
+
+(* move_to: the branch leaves its place and is inserted, under its new parent, at the
+   documented position of the target's child list as it is AFTER the node was taken out *)
+Theorem move_effect w ti n target b r w' :
+  op_move w ti n ti target b = (Ok r, w') ->
+  (w' = w /\ norm_before b = NNode n) \/
+  exists t t' s f1 pq ch1 o A B C D,
+    get_tree w ti = Some t /\ get_tree w' ti = Some t' /\ rid s = n /\
+    detach n (forest_of t) = Some (s, f1) /\
+    parent_path target f1 = Some pq /\ get_ch pq f1 = Some ch1 /\
+    get_ch pq (forest_of t') = Some (place (norm_before b) s ch1) /\
+    rows 0 (forest_of t) = A ++ rows_t o s ++ B /\ rows 0 f1 = A ++ B /\
+    rows 0 f1 = C ++ D /\ rows 0 (forest_of t') = C ++ rows_t target s ++ D /\
+    reg t' = reg t /\ idx t' = idx t /\
+    (forall tj, tj <> ti -> get_tree w' tj = get_tree w tj).
+Proof.
+  unfold op_move. intros H.
+  destruct (get_tree w ti) as [t|] eqn:Et; [|discriminate].
+  destruct (typed t); [discriminate|]. rewrite Nat.eqb_refl in H. cbn [negb] in H.
+  destruct (get_node n (forest_of t)) as [s|] eqn:Es; [|discriminate].
+  destruct (children_of target (forest_of t)) as [tch|] eqn:Etc; [|discriminate].
+  destruct (parent_of n (forest_of t)) as [cur|] eqn:Ecur; [|discriminate].
+  destruct (is_desc_or_self n target (forest_of t)); [discriminate|].
+  destruct (negb (before_ok (norm_before b) tch)); [discriminate|].
+  destruct (negb (Nat.eqb cur target) && existsb (fun c => did_eqb (rdid c) (rdid s)) tch); [discriminate|].
+  destruct (norm_before b) as [|z|s0] eqn:Enb.
+  1,2: right. 3: destruct (Nat.eqb s0 n) eqn:Es0; [left; injection H as _ <-; apply Nat.eqb_eq in Es0; subst s0; split; reflexivity|right].
+  all: unfold move_in in H;
+    destruct (detach n (forest_of t)) as [[s1 f1]|] eqn:Ed; [|discriminate];
+    destruct (parent_path target f1) as [pq|] eqn:Ep; [|discriminate];
+    injection H as <- <-;
+    unfold detach in Ed;
+    destruct (node_loc n (forest_of t)) as [[[q0 i] l]|] eqn:El; [|discriminate];
+    destruct (nth_error l i) as [s2|] eqn:En; [|discriminate];
+    injection Ed as <- <-;
+    destruct (node_loc_spec n _ q0 i l El) as (Hg & s' & Hs & Hr & _);
+    rewrite En in Hs; injection Hs as <-;
+    destruct (parent_path_has_ch target _ pq Ep) as (ch1 & Ec1);
+    destruct (upd_ch_context q0 (forest_of t) 0 l Hg) as (A & B & E1 & E2);
+    destruct (nth_error_split l i En) as (a & c & -> & <-);
+    destruct (upd_ch_context pq _ 0 ch1 Ec1) as (C & D & F1 & F2);
+    rewrite (parent_path_owner target _ pq ch1 Ep Ec1) in F1, F2;
+    destruct (place_split (norm_before b) s2 ch1) as (a1 & c1 & Ea & Eb);
+    set (o := owner q0 (forest_of t) 0) in *;
+    exists t, (set_forest t (upd_ch pq (place (norm_before b) s2) (upd_ch q0 (remove_nth (length a)) (forest_of t)))),
+           s2, (upd_ch q0 (remove_nth (length a)) (forest_of t)), pq, ch1, o,
+           (A ++ rows o a), (rows o c ++ B), (C ++ rows target a1), (rows target c1 ++ D);
+    rewrite <- Enb;
+    (split; [first [reflexivity|exact Et]|]); (split; [exact (get_put_same _ _ t _ Et)|]); (split; [exact Hr|]);
+    (split; [unfold detach; rewrite El, En; reflexivity|]); (split; [exact Ep|]); (split; [exact Ec1|]);
+    (split; [cbn [forest_of set_forest]; now rewrite (get_ch_upd_ch _ _ _ _ Ec1)|]);
+    (split; [rewrite E1, rows_app; cbn [flat_map]; la|]);
+    (split; [rewrite E2, remove_nth_split, rows_app; la|]);
+    (split; [rewrite F1, Ea, rows_app; la|]);
+    (split; [cbn [forest_of set_forest]; rewrite F2, Eb, rows_app; cbn [flat_map]; la|]);
+    (split; [reflexivity|]); (split; [reflexivity|]);
+    intros tj Hj; rewrite get_put_other by congruence; reflexivity.
+Qed.
+
+(* -- the shortcuts -- *)
+Theorem append_child_is_add w ti n d e k t : get_tree w ti = Some t ->
+  op_shortcut w ti n SAppendChild d e k = op_add w ti n d e k BNone.
+Proof. intros H. unfold op_shortcut. now rewrite H. Qed.
+
+Theorem prepend_child_is_add_first w ti n d e k t ch : get_tree w ti = Some t ->
+  children_of n (forest_of t) = Some ch ->
+  exists b, op_shortcut w ti n SPrependChild d e k = op_add w ti n d e k b /\
+            forall x, place (norm_before b) x ch = x :: ch.
+Proof.
+  intros H Hc. unfold op_shortcut. rewrite H, Hc. destruct ch as [|c ch].
+  - exists BNone. split; reflexivity.
+  - exists (BNode (rid c)). split; [reflexivity|]. intros x. cbn [norm_before]. rewrite place_node_ne.
+    cbn [index_by_id]. now rewrite Nat.eqb_refl.
+Qed.
+
+Lemma index_by_id_app s : forall a l, Forall (fun u => rid u <> s) a ->
+  index_by_id s (a ++ l) = option_map (fun j => length a + j) (index_by_id s l).
+Proof.
+  induction a as [|c a IH]; intros l F; cbn [app index_by_id length].
+  - destruct (index_by_id s l); reflexivity.
+  - inversion F as [|? ? Hc F']; subst. apply Nat.eqb_neq in Hc. rewrite Hc, (IH l F').
+    destruct (index_by_id s l); reflexivity.
+Qed.
+
+(* prepend_sibling / append_sibling: directly before / directly after the node *)
+Theorem sibling_positions (a : list rt) t c x : NoDup (map rid (a ++ t :: c)) ->
+  place (NNode (rid t)) x (a ++ t :: c) = a ++ x :: t :: c /\
+  place (norm_before (match nth_error (a ++ t :: c) (S (length a)) with Some nx => BNode (rid nx) | None => BNone end)) x (a ++ t :: c)
+    = a ++ t :: x :: c.
+Proof.
+  intros ND. rewrite map_app in ND. cbn [map] in ND.
+  assert (Fa : Forall (fun u => rid u <> rid t) a).
+  { apply Forall_forall. intros u Hu E. apply NoDup_remove_2 in ND. apply ND. apply in_or_app. left.
+    rewrite <- E. now apply in_map. }
+  assert (Hne : forall l0, exists c0 l1, a ++ t :: l0 = c0 :: l1) by (intros; destruct a; cbn; eauto).
+  split.
+  - destruct (Hne c) as (c0 & l1 & E0). rewrite E0, place_node_ne, <- E0.
+    rewrite (index_by_id_app _ a _ Fa). cbn [index_by_id]. rewrite Nat.eqb_refl. cbn [option_map].
+    unfold insert_at. rewrite Nat.add_0_r, firstn_app, Nat.sub_diag, firstn_all. cbn [firstn]. rewrite app_nil_r.
+    rewrite skipn_app, Nat.sub_diag, skipn_all. reflexivity.
+  - replace (nth_error (a ++ t :: c) (S (length a))) with (hd_error c).
+    2:{ rewrite nth_error_app2 by lia. replace (S (length a) - length a) with 1 by lia. destruct c; reflexivity. }
+    destruct c as [|nx c]; cbn [hd_error norm_before].
+    + rewrite place_append. la.
+    + destruct (Hne (nx :: c)) as (c0 & l1 & E0). rewrite E0, place_node_ne, <- E0.
+      assert (Fb : Forall (fun u => rid u <> rid nx) (a ++ [t])).
+      { apply Forall_forall. intros u Hu E. apply in_app_or in Hu.
+        apply NoDup_remove in ND. destruct ND as (ND1 & ND2).
+        destruct Hu as [Hu|[<-|[]]].
+        - apply (in_map rid) in Hu. rewrite E in Hu.
+          rewrite <- map_app in ND1. cbn [map] in ND1.
+          assert (ND3 : NoDup (map rid a ++ rid nx :: map rid c)) by (rewrite map_app in ND1; exact ND1).
+          apply NoDup_remove_2 in ND3. apply ND3. apply in_or_app. now left.
+        - apply ND2. apply in_or_app. right. left. now symmetry. }
+      replace (a ++ t :: nx :: c) with ((a ++ [t]) ++ nx :: c) by la.
+      rewrite (index_by_id_app _ (a ++ [t]) _ Fb). cbn [index_by_id]. rewrite Nat.eqb_refl. cbn [option_map].
+      unfold insert_at. rewrite Nat.add_0_r, firstn_app, Nat.sub_diag, firstn_all. cbn [firstn]. rewrite app_nil_r.
+      rewrite skipn_app, Nat.sub_diag, skipn_all. la.
+Qed.
+
+(* -- set_meta / clear_meta / update_meta: the payload of exactly one row, and only its meta field -- *)
+Theorem meta_effect w ti n o r w' :
+  op_meta w ti n o = (Ok r, w') ->
+  exists t t' A B p s,
+    get_tree w ti = Some t /\ get_tree w' ti = Some t' /\ rid s = n /\
+    rows 0 (forest_of t) = A ++ (p, n, rinfo s) :: B /\
+    rows 0 (forest_of t') = A ++ (p, n, set_meta_i (apply_meta o (i_meta (rinfo s))) (rinfo s)) :: B /\
+    reg t' = reg t /\ idx t' = idx t /\
+    (forall tj, tj <> ti -> get_tree w' tj = get_tree w tj).
+Proof.
+  unfold op_meta. intros H.
+  destruct (get_tree w ti) as [t|] eqn:Et; [|discriminate].
+  destruct (live t n) eqn:El; [|discriminate]. injection H as <- <-.
+  assert (Hin : In n (ids (forest_of t))).
+  { unfold live in El. apply existsb_exists in El. destruct El as (m & Hm & E). apply Nat.eqb_eq in E. now subst m. }
+  destruct (set_info_effect n (fun i => set_meta_i (apply_meta o (i_meta i)) i) (forest_of t) Hin) as (A & B & p & s & E1 & E2 & E3).
+  eexists t, _, A, B, p, s.
+  split; [first [reflexivity|exact Et]|]. split; [exact (get_put_same _ _ t _ Et)|]. split; [exact E2|].
+  split; [exact E1|]. split; [exact E3|]. split; [reflexivity|]. split; [reflexivity|].
+  intros tj Hj. rewrite get_put_other by congruence. reflexivity.
+Qed.
